@@ -19,6 +19,7 @@ EXPLANATION = (
     "_decode (C20 CSUM-DOM). [WF-LINE] a Yacht Devices packet is hex tokens and spaces ended by one CR LF. [WF-ACT] the Actisense line is three "
     "tokens (header, PGN, payload hex) that the reader indexes after the timestamp token. SER-DELIVER / BUF-PROGRESS are decided by rules_serial.py (interpreted byte-class streams); WF-CSUM / SER-CONST on the interpreted checksum function, writer packet and reader acceptance. UNDECIDED: field-value level round trip (C02/C09), what a "
     "gateway does with the packets."
+    ' Eighth round: [ID-USE] concrete addressings as in C05.'
 )
 ASSUMPTIONS = ["CPython ast parser", "absint.py / bitprov.py transfer functions", "the Yacht Devices and Actisense gateways prepend a time token (and a direction token) on receive",
                "database Length of single-frame definitions <= 8", "str.split / int(x,16) / bytes.fromhex semantics on well-formed hex tokens"]
